@@ -28,7 +28,7 @@ void registerFineSchedulerQuanta() {}
 }  // namespace dispenso
 
 using namespace dispenso;
-using PTI = detail::PerPoolPerThreadInfo;
+using PTI = dispenso::detail::PerPoolPerThreadInfo;
 
 static int g_d0;        // inline depth of the calling thread before the call
 static int g_ran;       // number of functors that ran during the call (= inline on the caller)
@@ -89,7 +89,7 @@ extern "C" void vf_main() {
 
   if (g_ran > 0) {
     vf_reach("a functor was run inline on the caller");
-    vf_check(g_d0 < detail::kMaxInlineDepth,
+    vf_check(g_d0 < dispenso::detail::kMaxInlineDepth,
              "functor run inline from a scheduling path although the thread's inline depth had reached kMaxInlineDepth");
     vf_check(g_untracked == 0,
              "inline depth counter is not larger by one while the inlined functor runs (nesting not tracked)");
